@@ -145,7 +145,29 @@ def gen_views(ctx, n_cases):
         raw = _raw_rows(lp)
         case = {'op': 'c11.views', 'rows': raw, 'src': src}
         nontriv = any(a == b for a, b in zip(raw, raw[1:])) and any(a != b for a, b in zip(raw, raw[1:]))
-        cases.append((case, _views_of(lp), nontriv))
+        try:
+            views = _views_of(lp)
+        except Exception as e:  # noqa: a view that cannot even be read as an array of the documented shape
+            ctx.fail('spec', 'views', case, f'a view of the path is not an array of the documented shape ({type(e).__name__}: {e})', 'views:malformed')
+            continue
+        if rng.random() < 0.3:
+            # the arrays handed out are the caller's: editing them in place (a unit conversion for a plot, say) is not an
+            # operation on the path, so everything read afterwards must be what it was
+            with core.quiet():
+                for arr in [lp.x, lp.y, lp.z, lp.points, lp.lastpt, *lp.path3d]:
+                    if isinstance(arr, np.ndarray) and arr.size and arr.flags.writeable:
+                        arr *= 3.0
+                        arr += 1.0
+            try:
+                again = _views_of(lp)
+            except Exception as e:  # noqa
+                again = {'error': str(e)}
+            ctx.count('views.reread_after_edit', str(again == views))
+            if again != views or _raw_rows(lp) != raw:
+                ctx.fail('spec', 'views', {**case, 'changed': [k for k in views if again.get(k) != views[k]]},
+                         'editing the arrays returned by the views in place changed what the path reports', 'views:aliased')
+                continue
+        cases.append((case, views, nontriv))
         ctx.count('views.source', src['gen'] + ('/' + src.get('mode', '') if 'mode' in src else ''))
         ctx.count('views.length', str(min(len(raw) // 10 * 10, 100)) + '+')
     return cases
@@ -172,12 +194,16 @@ def obs_filter(width, n, cols):
     import numpy as np
     from femto.helpers import unique_filter
     res = unique_filter([np.array(c, dtype=np.float32) for c in cols])
-    if width == 0 or res.size == 0:
-        rows = []
-    elif width == 1:
-        rows = [[q(v)] for v in res]
-    else:
-        rows = [[q(v) for v in r] for r in res.T]
+    try:
+        if width == 0 or res.size == 0:
+            rows = []
+        elif width == 1:
+            rows = [[q(v)] for v in res]
+        else:
+            rows = [[q(v) for v in r] for r in res.T]
+    except TypeError:
+        # not an array of the documented shape (one row per column, one column per kept point): reported as a difference
+        rows = [['malformed result of shape', list(np.shape(res))]]
     return rows
 
 
